@@ -628,6 +628,10 @@ def history_case(draw, tier):
                 mode = draw(st.sampled_from(["custom", "identity"]))
             stp = {"mode": mode, "weights": draw(weight_spec(loss, max(ns, no * no))) if mode == "custom" else None,
                    "implicit": draw(st.booleans()), "counts": draw(counts_st(ns, no))}
+        # later steps may go through the public setters (set_weight_matrices / set_weights + set_prob_dists_q) instead of a
+        # full re-configuration
+        if i > 0 and stp["mode"] in ("custom", "identity"):
+            stp["via_setter"] = draw(st.booleans())
         steps.append(stp)
     case["steps"] = steps
     # the loss object may have been configured for ANOTHER tomography (same sizes, other testers) before: everything
@@ -985,7 +989,12 @@ def run_history(case, ctx, impls):
                 ctx.label("mode-rejected-by-option")
                 return
             try:
-                L.set_from_standard_qtomography_option_data(qt, opt, data, True, impl == "generic")
+                if step.get("via_setter") and i > 0:
+                    ctx.label("configured:via_setters")
+                    (L.set_weight_matrices if loss == "se" else L.set_weights)(wts)
+                    L.set_prob_dists_q([q for _, q in data])
+                else:
+                    L.set_from_standard_qtomography_option_data(qt, opt, data, True, impl == "generic")
             except Exception as e:  # in-domain configuration must not raise
                 oid = f"configure_raises:{loss}:{step['mode']}"
                 if isinstance(e, ValueError) and "symmetric" in str(e) and step["mode"] in INVCOV_ALL:
